@@ -48,6 +48,14 @@ def _result(tok):
     return {"err:nf": "(RErr ENotFound)", "err:ref": "(RErr EInvalidRef)", "err:other": "(RErr EOther)"}.get(tok)
 
 
+def _note_ref(refs, pool, a, ci):
+    sj = pool[ci][2]
+    if sj not in ("N", "-"):
+        l = refs.setdefault(sj, [])
+        if a not in l:
+            l.append(a)
+
+
 def _vm_history(t, out):
     """t = tokens after 'H'; out = model line.  Returns a Coq proposition or None."""
     it = iter(t)
@@ -56,6 +64,9 @@ def _vm_history(t, out):
     import re as _re
     _m = _re.search(r"m([0-9]+)$", _plain)
     limit = "(eff_limit %s)" % (_m.group(1) if _m else "0")
+    _g = _re.search(r"g([01])", _plain)
+    skip_gc = "true" if _g and _g.group(1) == "1" else "false"
+    refs = {}     # subject -> distinct descriptors (hex mt, hex digest, size) of pushed manifests with that subject
     mts = [nx() for _ in range(int(nx()))]
     k = nx()
     kor = "None"
@@ -78,7 +89,9 @@ def _vm_history(t, out):
     for _ in range(int(nx())):
         o = nx()
         if o == "push":
-            d = d3(); ops.append("OPush %s %s" % (d, _s(pool[int(nx())][0])))
+            a = (nx(), nx(), nx()); ci = int(nx())
+            _note_ref(refs, pool, a, ci)
+            ops.append("OPush %s %s" % (_desc3(*a), _s(pool[ci][0])))
         elif o in ("fetch", "exists", "delete", "preds"):
             ops.append("%s %s" % ({"fetch": "OFetch", "exists": "OExists", "delete": "ODelete", "preds": "OPreds"}[o], d3()))
         elif o in ("resolve", "fetchref", "bresolve", "bfetchref"):
@@ -86,7 +99,9 @@ def _vm_history(t, out):
         elif o == "tag":
             d = d3(); ops.append("OTag %s %s" % (d, _s(nx())))
         elif o == "pushref":
-            d = d3(); c = _s(pool[int(nx())][0]); ops.append("OPushRef %s %s %s" % (d, c, _s(nx())))
+            a = (nx(), nx(), nx()); ci = int(nx())
+            _note_ref(refs, pool, a, ci)
+            ops.append("OPushRef %s %s %s" % (_desc3(*a), _s(pool[ci][0]), _s(nx())))
         elif o == "mount":
             d = d3(); g = nx()
             ops.append("OMount %s %s" % (d, "None" if g == "-" else "(Some %s)" % _s(pool[int(g)][0])))
@@ -98,6 +113,25 @@ def _vm_history(t, out):
         hfun = "(if str_eqb c %s then %s else %s)" % (_s(c), _s(dg), hfun)
         sv = "None" if sj == "N" else ("(Some None)" if sj == "-" else "(Some (Some %s))" % _desc_slash(sj))
         sfun = "(if str_eqb c %s then %s else %s)" % (_s(c), sv, sfun)
+    # index_of: a decodable pool item has no "manifests"; the referrers indexes the client itself renders
+    # (every ordering of every subset of the pushed referrers of one subject) are rendered and hashed HERE,
+    # independently of gen_index / the OCaml driver's parser
+    ifun = "(Some (@nil desc))"
+    for c, dg, sj in pool:
+        ifun = "(if str_eqb c %s then %s else %s)" % (_s(c), "None" if sj == "N" else "(Some (@nil desc))", ifun)
+    import itertools, hashlib
+    for sj, ds in refs.items():
+        if len(ds) > 3:
+            return None
+        for k in range(len(ds) + 1):
+            for perm in itertools.permutations(ds, k):
+                body = (b'{"schemaVersion":2,"mediaType":"application/vnd.oci.image.index.v1+json","manifests":['
+                        + b",".join(b'{"mediaType":"%s","digest":"%s","size":%d}' % (bytes.fromhex(m), bytes.fromhex(g), int(z))
+                                    for m, g, z in perm) + b"]}")
+                bh = _s(body.hex())
+                hfun = "(if str_eqb c %s then %s else %s)" % (bh, _s(("sha256:" + hashlib.sha256(body).hexdigest()).encode().hex()), hfun)
+                ifun = "(if str_eqb c %s then Some %s else %s)" % (
+                    bh, "[" + "; ".join(_desc3(*x) for x in perm) + "]" if perm else "(@nil desc)", ifun)
     parts = out.split(" | ")
     if not parts[0].startswith("notallowed=0") or len(parts) - 1 != len(ops):
         return None
@@ -110,13 +144,12 @@ def _vm_history(t, out):
         exp.append("(%d%%nat, %s)" % (0 if tr == "-" else tr.count(";") + 1, r))
     bit = lambda i: "true" if pb[i] == "1" else "false"
     prof = "(mkProfile %s %s %s %s %s)" % tuple(bit(i) for i in range(5))
-    call = ("(run_history (fun c => %s) vm_parse_mt (fun c => %s) %s %s %s %s %s %s %s %s %s)"
-            % (hfun, sfun, _s(main), _s(other), "[" + "; ".join(_s(m) for m in mts) + "]" if mts else "(@nil str)", limit, prof, kor,
+    call = ("(run_history (fun c => %s) vm_parse_mt (fun c => %s) %s %s %s %s %s (fun c => %s) %s %s %s %s %s)"
+            % (hfun, sfun, _s(main), _s(other), "[" + "; ".join(_s(m) for m in mts) + "]" if mts else "(@nil str)", limit,
+               skip_gc, ifun, prof, kor,
                "[" + "; ".join("(%s, %s)" % (_s(pool[i][1]), _s(pool[i][0])) for i in others) + "]" if others else "(@nil (str * str))",
                ["RSUnknown", "RSSupported", "RSUnsupported"][int(rst)],
                "[" + "; ".join(ops) + "]"))
-    call = call.replace("(run_history (fun c => %s) vm_parse_mt (fun c => %s) %s %s [" % (hfun, sfun, _s(main), _s(other)),
-                        "(run_history (fun c => %s) vm_parse_mt (fun c => %s) %s %s [" % (hfun, sfun, _s(main), _s(other)))
     return ("let out := snd %s in\n  map (fun tr => (length (fst tr), snd tr)) out = [%s] /\\\n"
             "  forallb (fun tr => forallb (fun qr => allowed (fst qr)) (fst tr)) out = true" % (call, "; ".join(exp)))
 
@@ -266,8 +299,9 @@ def _c13_vm_sample(d, tier, coq, build):
 CONFIG = {
     "properties_file": "Properties/C13.v",
     "proof_files": ["Base/Prelude.v", "Base/Regex.v", "Proofs/Reference.v", "Proofs/RemoteClient.v",
-                    "Proofs/RemoteSeek.v", "Proofs/RemoteRefine.v", "Proofs/Location.v", "Proofs/Paging.v", "Proofs/RemotePaged.v"],
-    "model_files": ["Generated/GC20.v", "Generated/GC13.v", "Generated/GC15.v", "Model/Paging.v", "Model/Reference.v", "Model/Registry.v",
+                    "Proofs/RemoteSeek.v", "Proofs/RemoteRefine.v", "Proofs/Location.v", "Proofs/Paging.v", "Proofs/RemotePaged.v",
+                    "Proofs/RefOps.v", "Proofs/RefURL.v", "Proofs/RemoteURL.v"],   # RefOps/RefURL: C20's URL theorems, composed in RemoteURL.v
+    "model_files": ["Generated/GC20.v", "Generated/GC13.v", "Generated/GC15.v", "Model/Paging.v", "Model/Reference.v", "Model/RefOps.v", "Model/Registry.v",
                     "Model/RemoteClient.v", "Model/RemoteSpec.v", "Model/Location.v"],
     "extract": "XC13.v",
     "ml_main": "c13_main.ml",
@@ -279,24 +313,26 @@ CONFIG = {
     "assumptions": [
         "the hash function is a parameter H of the models (SHA-256 in the harness); the refinement theorem only needs that H yields well-formed digests (no collision-freeness): the body digest itself is checked by the consumer (C05); only sha256 digests are generated",
         "mime.ParseMediaType is a parameter parse_mt : str -> option str (None = error); refinement assumes it is the identity on the media types the caller uses and on application/octet-stream -- media types mime would rewrite (upper case, parameters) are outside the theorems and the generator (audit F9/F11: generateBlobDescriptor ignores mime's error, so a Content-Type like 'text/plain; a' yields 'text/plain' in the code and octet-stream in the model; not generated)",
-        "JSON decoding of a manifest's subject is ONE parameter subject_of of the bytes (None = undecodable) standing for the four decoders of push/delete; manifests that decode for Delete but not for the typed decoders of Push are not generated; refinement covers decodable manifests whose subject, if any, is pushed to a registry with the Referrers API (OCI-Subject), and Predecessors over that API (single page; pagination: composition with C15); the client-side referrers tag schema is C14 (model prints UNJUDGED for the whole history there, ~1% of the cases)",
-        "MaxMetadataBytes is a parameter limit (default regenerated from utils.go): limitSize on pushed/deleted indexable manifests and the bound on the body hashed by generateDescriptor are modelled; the refinement theorem assumes manifests no larger than the limit (larger ones are refused, after fix ed36700 never truncated); the byte size of a referrers index document is not modelled (no tiny limits with Predecessors)",
+        "JSON decoding of a manifest's subject is ONE parameter subject_of of the bytes (None = undecodable) standing for the four decoders of push/delete; manifests that decode for Delete but not for the typed decoders of Push are not generated; the history-level refinement theorem covers decodable manifests whose subject, if any, is pushed to a registry with the Referrers API (OCI-Subject), and Predecessors over that API (single page; pagination: composition with C15)",
+        "referrers TAG schema (registry without the Referrers API; sequential -- concurrency is C14): referrersFromIndex, updateReferrersIndex, applyReferrerChanges (at most one change), generateIndex (gen_index renders the exact JSON bytes), decodeJSON (reads exactly desc.Size bytes and verifies the digest: decode_json_verifies, configured by the translator's decodeJSON_calls), the Predecessors fallback on ErrUnsupported, SkipReferrersGC (parameter skip_gc) and the deletion of the old index are executable Gallina, compared on every request/response and judged by the oracle (generated in every profile, incl. single-field corruptions of the GET/HEAD of the referrers tag). JSON DEcoding of an index is a parameter index_of; the theorems ask index_of (gen_index l) = Some l only for the two indexes involved (the one read, the one written) -- for ALL lists it would be unsatisfiable because gen_index does not escape quotes -- and subject_of (gen_index l) = Some None; satisfiable: Example C13_push_subject_satisfiable discharges every hypothesis by computation (the OCaml driver parses the generated format with a regex; the vm_compute sample uses an independent Python rendering). Theorems: function level (updateReferrersIndex then read), every SEQUENCE of referrer changes of one subject (C13_tag_schema_changes: refines applyReferrerChanges step by step under per-step side conditions changes_ok: change effective, index decodes, fits the limit, no digest collision old/new index unless SkipReferrersGC) and OPERATION level (Push/Delete of a manifest with subject, then Predecessors; any registry state satisfying minv, unique tag keys, no digest collision between the manifest and the indexes) -- they are NOT part of the history-level refinement theorem (wf_hist still confines subjects to registries with the API); artifactType/annotations of index entries are not modelled (not generated)",
+        "MaxMetadataBytes is a parameter limit (default regenerated from utils.go): limitSize on pushed/deleted indexable manifests and the bound on the body hashed by generateDescriptor are modelled; the refinement theorem assumes manifests no larger than the limit (larger ones are refused, after fix ed36700 never truncated); the byte size of a generated referrers index is modelled (len (gen_index l) against the limit) but near-limit histories are generated without subjects",
         "Repository.ParseReference is the C20 model repo_parse (proved in C20); the correspondence uses references without '/' so that net/url registry validation is not involved; fully qualified references are C20's subject",
         "op_ok / wf_hist: descriptors carry a VALID digest and a media type and are accurate for what the store holds. The client does not validate target.Digest itself: Fetch(desc{Digest: '../x'}) emits a non-spec URL -- a caller inconsistency outside the property's quantifier, not generated (audit F5)",
-        "`allowed` is a grammar over ABSTRACT requests (method, repository, endpoint, reference, query parameters, Content-Type/Length, Range); URL building (url.go: scheme, host, path, escaping of mount/from/artifactType) is covered only by the correspondence (fake registry parses real URLs) and the oracle's endpoint table SpecCheck on the raw http.Request; Accept is not constrained; `n` on /referrers (ReferrerListPageSize > 0, an oras-go extension the distribution spec does not define) is tolerated by SpecCheck and counted",
+        "`allowed` is a grammar over ABSTRACT requests (method, repository, endpoint, reference, query parameters, Content-Type/Length, Range); URL building (url.go) is modelled as request_url over C20's URL builders (scheme, host, /v2/<repo>/<kind>/<ref>, ?mount=&from= verbatim, ?digest= and ?n= through url.Values.Encode with ':' escaped) and compared on EVERY request (u= field: first 6 bytes of the SHA-256 of the URL string) in addition to the oracle's endpoint table SpecCheck on the raw http.Request; C13_request_url_exact composes it with C20_url_exact under C20's single net/url hypothesis reg_clean; artifactType filtering of referrers is not generated; Accept is not constrained; `n` on /referrers (ReferrerListPageSize > 0, an oras-go extension the distribution spec does not define) is tolerated by SpecCheck and counted",
         "loc_ok / no_status_corruption: a registry that answers a POST with another 2xx than the truth (201 for 202 or vice versa) makes the client follow it (upload to the Location it was given): a lying registry, not a contradiction the client could detect -- excluded from the theorem, generated, not judged",
         "step 2 of the upload (Model/Location.v): Location following, the ':443' repair and the digest query are modelled on plain URLs (no user info, no IPv6 literal, unreserved characters, no dot segments, distinct query keys) as string manipulation and compared with the real PUT URL; other Location forms print UNJUDGED and are judged only by the net/url-based oracle; in the history model the Location stays abstract (repository, session)",
         "Predecessors over a PAGINATING registry: composition with C15 (Model/Paging.v page loop, its hypotheses on Link rendering/resolution and document sizes are inherited); artifact type of a manifest is a parameter atype",
         "Seek: the reader is modelled against ANY server answering its Range requests (request shape/allowed, accepted 206 consistent in status and Content-Length) and, composed with the registry model of any range-capable profile, proved equal to an in-memory reader; offsets use Go's int64 arithmetic (wrap64); an invalid whence is not representable; the digest header of a 206 is not verified by the code (known finding seek-206-digest-unverified)",
-        "Repository options SkipReferrersGC, TagListPageSize, ReferrerListPageSize and HandleWarning are rotated by the generator and must not change any modelled observable; Warning headers: oracle only",
+        "Repository options: SkipReferrersGC and ReferrerListPageSize are model parameters (skip_gc; the ?n= of request_url), MaxMetadataBytes is `limit`; TagListPageSize and HandleWarning are rotated by the generator and must not change any modelled observable; Warning headers: oracle only",
         "response bodies: how a body hands out its bytes (short reads; the last bytes together with io.EOF or before it) is a parameter `modes` (per body) of the readSeekCloser model and of C13_seek; the fake registry rotates these behaviours over all its bodies; caller-side content readers rotate over *bytes.Reader, io.NopCloser and an opaque chunking reader whenever the descriptor's size is accurate",
         "one deterministic registry state machine per capability profile (32 profiles), starting EMPTY (no pre-existing foreign content), one sibling repository as mount source (mount from a third/non-existent/same repository is not generated); registries that validate manifest contents or convert media types on Accept are outside; the error code of an error response is observable only for 404 NAME_UNKNOWN (errutil's other codes and messages are not compared)",
-        "the T layer regenerates constants and tables only (header names, zeroDigest, default manifest media types, the two indexing switch lists, defaultMaxMetadataBytes) + AST anchors; generateDescriptor / verifyContentDigest / generateBlobDescriptor are hand-written models tied by the correspondence (DESIGN's generated decision functions were not built; audit F10)",
+        "the T layer regenerates constants and tables (header names, zeroDigest, default manifest media types, the two indexing switch lists, defaultMaxMetadataBytes), three call sequences (decodeJSON_calls: limitSize, content.ReadAll, json.Unmarshal -- a decodeJSON that decodes from the stream breaks the proof decode_json_verifies_true; referrersFromIndex_calls; calculateDigest_calls) + AST anchors on every modelled function incl. the tag-schema functions and utils.go; generateDescriptor / verifyContentDigest / generateBlobDescriptor are hand-written models tied by the correspondence (DESIGN's generated decision functions were not built; audit F10)",
         "net/http transport, redirects, chunked upload, the Authorization re-use of the upload PUT and the auth client are not modelled: the client is driven through remote.Client (no sockets)",
+        "C13_requests_allowed needs H to yield well-formed digests (forall c, valid_digest (H c) = true): the DELETE of the old referrers index is addressed by the digest the client computed",
         "C13_refines_store_partial excludes Resolve/FetchReference of a TAG through a HEAD request against a registry that sends no Docker-Content-Digest (known finding head-tag-no-digest-header; tight: C13_resolve_tag_needs_header)",
     ],
-    "level_text": "Coq theorems: (1) client o registry refines a content store with tags for every history of Push/Fetch/Exists/Delete/Resolve/FetchReference/Tag/PushReference/Mount/blob Resolve/FetchReference, every capability profile, ManifestMediaTypes option and referrers state (induction over the history with a registry invariant); (2) every request emitted against ANY server is in the request grammar `allowed`; (3) against ANY server a successful call implies a response consistent with the request (digest header, Content-Length, Content-Type, status, Location), plus the single-field-corruption form for Fetch; (4) readSeekCloser refines an in-memory reader for every Read/Seek script and every body behaviour (chunking, data with EOF; per body) and emits Range bytes=off-(size-1) exactly when the offset changes inside the blob; (5) Predecessors over the Referrers API returns exactly the stored manifests with that subject (inside the refinement theorem, for any registry state, and -- composed with C15 -- for any legal pagination); (6) the PUT of a two-step upload follows the Location (authority, path, query + digest) with the documented :443 repair only; (7) the digest-header hypothesis of (1) is tight in every registry state and all 32 profiles are covered (in-Coq computation). Tied to the code by translator-regenerated constants/tables, a differential run of the extracted models against remote.Repository over a fake registry whose complete request/response log is replayed through the extracted Registry.v, and an independent oracle",
-    "level_note": "after the audit: three defects fixed in the code (truncated manifest over MaxMetadataBytes, FetchReference ignoring the GET digest header on the HEAD path, Seek accepting a 206 of the wrong length) + blob-upload digest check; two known findings (head-tag-no-digest-header, seek-206-digest-unverified). The last sentence of the property is proved as 'success implies a consistent response' for every operation incl. Seek; URL construction and Warning pass-through are oracle/correspondence-only. refinement theorem is _partial: excludes resolving a tag by HEAD without Docker-Content-Digest (known finding, refuted witness proved), manifests with subjects on registries without the Referrers API / referrers state 'unsupported' (tag schema: C14), pagination (C15), inaccurate caller descriptors; net/http, mime, JSON are parameters / not modelled; net/url only for plain URLs",
+    "level_text": "Coq theorems: (1) client o registry refines a content store with tags for every history of Push/Fetch/Exists/Delete/Resolve/FetchReference/Tag/PushReference/Mount/blob Resolve/FetchReference, every capability profile, ManifestMediaTypes option and referrers state (induction over the history with a registry invariant); (2) every request emitted against ANY server is in the request grammar `allowed`; (3) against ANY server a successful call implies a response consistent with the request (digest header, Content-Length, Content-Type, status, Location), plus the single-field-corruption form for Fetch; (4) readSeekCloser refines an in-memory reader for every Read/Seek script and every body behaviour (chunking, data with EOF; per body) and emits Range bytes=off-(size-1) exactly when the offset changes inside the blob; (5) Predecessors over the Referrers API returns exactly the stored manifests with that subject (inside the refinement theorem, for any registry state, and -- composed with C15 -- for any legal pagination); (6) the PUT of a two-step upload follows the Location (authority, path, query + digest) with the documented :443 repair only; (7) the digest-header hypothesis of (1) is tight in every registry state and all 32 profiles are covered (in-Coq computation); (8) referrers tag schema against a registry without the API, in any registry state: Push of a manifest with subject succeeds and Predecessors then lists old referrers ++ [pushed]; Delete removes the referrer from the index, then the manifest; every sequence of index updates of one subject leaves the referrers tag at what applyReferrerChanges yields step by step; the index a Referrers/Predecessors call accepts is the body whose digest and length the response announced (single-field corruption theorems for the referrers-tag GET); (9) the URL of every request of the grammar is exactly scheme://host/v2/<repository>/<kind>/<reference> under RFC 3986 splitting (composition with C20_url_exact). Tied to the code by translator-regenerated constants/tables, a differential run of the extracted models against remote.Repository over a fake registry whose complete request/response log is replayed through the extracted Registry.v, and an independent oracle",
+    "level_note": "after the audit: three defects fixed in the code (truncated manifest over MaxMetadataBytes, FetchReference ignoring the GET digest header on the HEAD path, Seek accepting a 206 of the wrong length) + blob-upload digest check; two known findings (head-tag-no-digest-header, seek-206-digest-unverified). The last sentence of the property is proved as 'success implies a consistent response' for every operation incl. Seek; URL construction is modelled and compared per request (C13_request_url_exact); Warning pass-through is oracle-only. The history-level refinement theorem is _partial: excludes resolving a tag by HEAD without Docker-Content-Digest (known finding, refuted witness proved), manifests with subjects on registries without the Referrers API (there: operation-level theorems C13_push_subject_then_predecessors / C13_delete_subject_then_predecessors over the modelled tag schema, not lifted to histories; concurrency C14), pagination (C15), inaccurate caller descriptors; both known findings have _refuted witnesses (C13_refines_store_refuted, C13_corruption_rejected_seek_digest_refuted); net/http, mime, JSON are parameters / not modelled; net/url only for plain URLs",
     "technique": "machine-checked proof in Coq (refinement by induction over histories with a registry invariant; any-server lemmas for request grammar and response consistency; seek state-machine refinement) + translator-regenerated tables + model/implementation correspondence on full request/response traces",
     "explanation": "theorems over all histories/profiles/servers about Model/Registry.v + Model/RemoteClient.v; the extracted models are run on the same generated histories (rotating profiles, PlainHTTP, ManifestMediaTypes, referrers state, one corrupted response field, Read/Seek scripts) as registry/remote against harness/fakereg13 and compared on results and complete request/response logs; independent oracle = Go ground-truth store, distribution-spec endpoint table, must-fail table for contradicting corruptions, bytes.Reader for seeks",
 }
